@@ -77,7 +77,9 @@ class Obligation:
 
     def vc(self, what, pc, goal, timeout_ms=60000, info=None):
         """goal must hold under pc: pc ∧ ¬goal must be unsat"""
-        verdict, model, st = solve(list(pc) + [z3.Not(goal)], timeout_ms)
+        self.nvc = getattr(self, "nvc", 0) + 1
+        k = getattr(self, "cross_every", 1)
+        verdict, model, st = solve(list(pc) + [z3.Not(goal)], timeout_ms, cross=(self.nvc % k == 0 or k == 1))
         self._acc(st)
         fut = st.get("cvc5_future")
         if verdict == "unsat":
@@ -101,6 +103,10 @@ class Obligation:
 
     def fail(self, text):
         self.problems.append(("inconclusive", text, None))
+
+    def violation(self, text):
+        """a violation established structurally on an executed path (no model needed); still confirmed natively"""
+        self.problems.append(("cex", text, None, None))
 
     def _acc(self, st):
         self.queries += 1
